@@ -22,10 +22,10 @@ pub static DEF: PropDef = PropDef {
     run,
 };
 
-const KINDS: [&str; 10] = ["misplaced-leaf", "misplaced-master-start", "width-overflow-leaf", "full-width-overflow", "unknown-on-leaf", "bad-raw-id", "wrong-end", "full-invalid-child", "several-in-a-row", "end-size-overflow"];
+pub const KINDS: [&str; 10] = ["misplaced-leaf", "misplaced-master-start", "width-overflow-leaf", "full-width-overflow", "unknown-on-leaf", "bad-raw-id", "wrong-end", "full-invalid-child", "several-in-a-row", "end-size-overflow"];
 
 /// chain of open masters (id, known?) after calls[..p]
-fn shadow_at(calls: &[WCall], p: usize) -> Vec<(u64, bool)> {
+pub fn shadow_at(calls: &[WCall], p: usize) -> Vec<(u64, bool)> {
     let mut st = Vec::new();
     for c in &calls[..p] {
         match c {
@@ -45,12 +45,12 @@ fn sample_value(rng: &mut Rng, e: &Elem) -> Item {
 }
 
 /// (accepted calls to insert first, failing calls)
-fn make_failing2(rng: &mut Rng, spec: &Spec, kind: &str, chain: &[(u64, bool)]) -> Option<(Vec<WCall>, Vec<WCall>)> {
+pub fn make_failing2(rng: &mut Rng, spec: &Spec, kind: &str, chain: &[(u64, bool)]) -> Option<(Vec<WCall>, Vec<WCall>)> {
     if kind == "end-size-overflow" {
         // a master started with a 1- or 2-byte size field, filled beyond what that width can describe, then End: the End is rejected
         let ids: Vec<u64> = chain.iter().map(|x| x.0).collect();
         let allowed: Vec<&Elem> = spec.allowed_under(&ids);
-        let c: Vec<&&Elem> = allowed.iter().filter(|e| e.ty == Ty::Master && !e.is_global()).collect();
+        let c: Vec<&&Elem> = allowed.iter().filter(|e| e.ty == Ty::Master).collect();
         if c.is_empty() {
             return None;
         }
@@ -98,7 +98,7 @@ fn make_failing(rng: &mut Rng, spec: &Spec, kind: &str, chain: &[(u64, bool)]) -
             Some(vec![WCall::Write(item, SizeOpt::Width(w))])
         }
         "full-width-overflow" => {
-            let c: Vec<&&Elem> = allowed.iter().filter(|e| e.ty == Ty::Master && !e.is_global()).collect();
+            let c: Vec<&&Elem> = allowed.iter().filter(|e| e.ty == Ty::Master).collect();
             if c.is_empty() {
                 return None;
             }
@@ -138,7 +138,7 @@ fn make_failing(rng: &mut Rng, spec: &Spec, kind: &str, chain: &[(u64, bool)]) -
             Some(vec![WCall::Write(Item::End(id), SizeOpt::Default)])
         }
         "full-invalid-child" => {
-            let c: Vec<&&Elem> = allowed.iter().filter(|e| e.ty == Ty::Master && !e.is_global()).collect();
+            let c: Vec<&&Elem> = allowed.iter().filter(|e| e.ty == Ty::Master).collect();
             if c.is_empty() {
                 return None;
             }
@@ -184,7 +184,7 @@ fn build_bad_full(rng: &mut Rng, spec: &Spec, e: &Elem, chain: &[u64], depth: us
     }
     // now and then: a nested master given as a bare Start (never closed inside the Full) before the bad child
     if rng.chance(1, 4) {
-        let subs: Vec<&&Elem> = allowed.iter().filter(|x| x.ty == Ty::Master && !x.is_global()).collect();
+        let subs: Vec<&&Elem> = allowed.iter().filter(|x| x.ty == Ty::Master).collect();
         if !subs.is_empty() {
             let sub = **rng.pick(&subs);
             children.push(Item::Start(sub.id));
@@ -244,7 +244,7 @@ fn build_bad_full(rng: &mut Rng, spec: &Spec, e: &Elem, chain: &[u64], depth: us
             }
         }
     } else {
-        let sub: Vec<&&Elem> = allowed.iter().filter(|x| x.ty == Ty::Master && !x.is_global()).collect();
+        let sub: Vec<&&Elem> = allowed.iter().filter(|x| x.ty == Ty::Master).collect();
         if sub.is_empty() {
             return build_bad_full(rng, spec, e, chain, 1);
         }
@@ -255,7 +255,8 @@ fn build_bad_full(rng: &mut Rng, spec: &Spec, e: &Elem, chain: &[u64], depth: us
 }
 
 fn run(c: &mut Case) {
-    let o = DocOpts { p_width: 10, p_unknown: 15, raw: false, shaping: false, full_specs: false };
+    // a quarter of the specifications have masters with global placeholders in their path (recursive nesting included)
+    let o = DocOpts { p_width: 10, p_unknown: 15, raw: false, shaping: false, full_specs: c.rng.chance(1, 4) };
     let mut doc = gen_doc(&mut c.rng, c.tier, &o);
     // keep histories short: C19 is quadratic in history length
     let limit = c.tier.pick(24usize, 40);
